@@ -306,9 +306,9 @@ run_deflate(struct scn *s)
         }
         for (i = 0; i < s->cap; i++) {
                 struct call c;
-                uint32_t ai0, ti0, to0;
-                unsigned char *o, *ni0, *no0;
-                int st0 = z->internal_state.state;
+                uint32_t ai0, ti0, to0, sv_level, sv_lbs;
+                unsigned char *o, *ni0, *no0, *sv_lb;
+                int st0 = z->internal_state.state, badkind;
                 if (s->adapt)
                         c = adapt_choose(s, z, fed, eos_set, i);
                 else if (i < s->ncalls)
@@ -329,6 +329,25 @@ run_deflate(struct scn *s)
                         z->avail_in = chunk_n;
                         fed += chunk_n;
                 }
+                /* an invalid-parameter call injected into the stream (flush field bits 4..7): 1 level 4, 2 no level buffer, 3 level buffer one
+                 * byte short of the minimum, 4 level 9; the parameters are put back after the call */
+                badkind = 0;
+                if ((c.flush >> 4) >= 1 && (c.flush >> 4) <= 4 && (c.flush & 15) <= 2) {
+                        badkind = c.flush >> 4;
+                        c.flush &= 15;
+                }
+                sv_level = z->level;
+                sv_lb = z->level_buf;
+                sv_lbs = z->level_buf_size;
+                if (badkind == 1)
+                        z->level = 4;
+                else if (badkind == 4)
+                        z->level = 9;
+                else if (badkind == 2) {
+                        z->level_buf = NULL;
+                        z->level_buf_size = 0;
+                } else if (badkind == 3)
+                        z->level_buf_size = lbuf_size(s->level, 0) - 1;
                 if (c.eos && fed == (size_t) s->inlen)
                         eos_set = 1;
                 z->end_of_stream = eos_set;
@@ -348,6 +367,11 @@ run_deflate(struct scn *s)
                 VH_CATCH { faulted = 1; }
                 VH_DONE;
                 total_calls++;
+                if (badkind && !faulted) {
+                        z->level = sv_level;
+                        z->level_buf = sv_lb;
+                        z->level_buf_size = sv_lbs;
+                }
                 if (faulted) {
                         total_faults++;
                         fprintf(out, "{\"e\":\"Fault\",\"scn\":%d,\"seq\":%d,\"flush\":%d,\"eos\":%d,\"ai\":%u,\"ao\":%d,\"addr_rel_in\":%ld,\"addr_rel_ctx\":%ld,\"st0\":\"%s\"}\n", s->id, i, c.flush, eos_set, ai0, c.ao,
@@ -363,7 +387,7 @@ run_deflate(struct scn *s)
                         fprintf(out,
                                 "{\"e\":\"Call\",\"scn\":%d,\"seq\":%d,\"flush\":%d,\"eos\":%d,\"ai\":%u,\"ao\":%d,\"ret\":%d,\"c\":%u,\"p\":%u,"
                                 "\"ti\":%u,\"to\":%u,\"dti\":%u,\"dto\":%u,\"dni\":%ld,\"dno\":%ld,\"st\":\"%s\",\"st0\":\"%s\",\"hist\":%d,\"bv\":%u,\"bp\":%u,"
-                                "\"touched_outside\":%d,\"sh\":%d,\"b0\":\"%s\",\"t0\":%d,\"b1\":\"%s\",\"t1\":%d",
+                                "\"touched_outside\":%d,\"sh\":%d,\"b0\":\"%s\",\"t0\":%d,\"b1\":\"%s\",\"t1\":%d,\"bad\":%d",
                                 s->id, i, c.flush, eos_set, ai0, c.ao, ret, cns, prd, z->total_in, z->total_out, z->total_in - ti0,
                                 z->total_out - to0, (long) (z->next_in - ni0), (long) (z->next_out - no0),
                                 zstate_name(z->internal_state.state), zstate_name(st0), z->internal_state.has_hist,
@@ -372,7 +396,7 @@ run_deflate(struct scn *s)
                                 ht && ret == COMP_OK && s->api == API_DEFLATE ? isal_deflate_set_hufftables(z, ht, IGZIP_HUFFTABLE_CUSTOM) : 99,
                                 zstate_name(st0 >= ZSTATE_TMP_NEW_HDR ? st0 - (ZSTATE_TMP_NEW_HDR - ZSTATE_NEW_HDR) : st0), st0 >= ZSTATE_TMP_NEW_HDR,
                                 zstate_name((int) z->internal_state.state >= ZSTATE_TMP_NEW_HDR ? (int) z->internal_state.state - (ZSTATE_TMP_NEW_HDR - ZSTATE_NEW_HDR) : (int) z->internal_state.state),
-                                (int) z->internal_state.state >= ZSTATE_TMP_NEW_HDR);
+                                (int) z->internal_state.state >= ZSTATE_TMP_NEW_HDR, badkind);
                         log_bytes("out", o, prd <= (uint32_t) c.ao ? prd : 0);
                         fprintf(out, "}\n");
                 }
@@ -380,7 +404,7 @@ run_deflate(struct scn *s)
                         release_chunk(&fd, chunk, chunk_n);
                         chunk = NULL;
                 }
-                if (ret != COMP_OK) {
+                if (ret != COMP_OK && !badkind) { /* (an injected invalid-parameter call is expected to fail; the stream goes on) */
                         why = "error";
                         break;
                 }
